@@ -18,11 +18,13 @@ PROP = dict(
                        "Comdex.C19.ext_lend_value_as_amount_counterexample", "Comdex.C19.ext_lend_truncated_total_counterexample",
                        "Comdex.C19.ext_share_visit_valid", "Comdex.C19.ext_cumulative_is_funding_minus_available",
                        "Comdex.C19.ext_epochs_le_duration", "Comdex.C19.ext_one_epoch_per_visit", "Comdex.C19.ext_not_due_twice",
-                       "Comdex.C19.ext_available_nonneg_of_epoch_caps", "Comdex.C19.ext_accepted_programme_funded"],
+                       "Comdex.C19.ext_available_nonneg_of_epoch_caps", "Comdex.C19.ext_accepted_programme_funded",
+                       "Comdex.C19.sf_epoch_pays_le_collected", "Comdex.C19.sf_gauge_leak_counterexample"],
     harness_tests=["TestC19"],
     monitors=["split_sum", "zero_epochs", "epoch_cap", "cumulative_cap", "farmer_share", "farmer_share_1e12", "custody",
               "custody_ext_overpaid", "float_hyp", "ext_epoch_cap", "ext_epoch_bound", "ext_cumulative_cap", "ext_available_nonneg",
-              "ext_schedule", "ext_share_total", "ext_lend_value_as_amount", "ext_lend_truncated_total"],
+              "ext_schedule", "ext_share_total", "ext_lend_value_as_amount", "ext_lend_truncated_total",
+              "sf_epoch_cap", "sf_leak", "custody_sf_leak"],
     trusted_base=[KERNEL_TB, HARNESS_TB, DEC_TB,
                   "Model/Gauge.lean is hand-written from x/rewards/keeper/{utils,gauge,distribution,epochs,iter}.go and "
                   "x/liquidity/keeper/rewards.go:168-307; tied by running the real SplitTotalAmountPerEpoch, GetFarmingRewardsData, "
